@@ -278,6 +278,11 @@ fn operand_store(block: &mut il::Block, opr: &bad64::Operand, value: il::Express
 fn mem_operand_address(opr: &bad64::Operand) -> Result<(il::Expression, MemOperandSideeffect)> {
     let (address_expr, sideeffect) = match opr {
         bad64::Operand::MemReg(reg) => (get_register(*reg)?.get(), MemOperandSideeffect::None),
+        // PC-relative literal (`ldr x0, label`): the decoder gives the absolute address
+        bad64::Operand::Label(imm) => (
+            il::expr_const(imm_to_u64(imm), 64),
+            MemOperandSideeffect::None,
+        ),
         bad64::Operand::MemOffset {
             reg,
             offset,
@@ -353,7 +358,6 @@ fn mem_operand_address(opr: &bad64::Operand) -> Result<(il::Expression, MemOpera
         | bad64::Operand::SysReg(_)
         | bad64::Operand::ImplSpec { .. }
         | bad64::Operand::Cond(_)
-        | bad64::Operand::Label(_)
         | bad64::Operand::Name(_)
         | bad64::Operand::StrImm { .. } => unreachable!("Memory operand is expected here"),
     };
